@@ -264,34 +264,34 @@ func (c *ctx) prologue() {
 				wObj = info.Defs[f.Names[0]]
 			}
 		}
-		ast.Inspect(fd.Body, func(n ast.Node) bool {
-			call, ok := n.(*ast.CallExpr)
-			if !ok {
-				return true
-			}
+		// the calls of the function in textual order, helpers that take the writer entered in place
+		inl := map[*ast.CallExpr]*astx.InlinedCall{}
+		for _, ic := range astx.CallsInlined(info, fc.pkg.Syntax, fd, 3) {
+			call := ic.Call
+			inl[call] = ic
 			se, _ := call.Fun.(*ast.SelectorExpr)
 			fn := astx.Callee(info, call)
+			isW := func(e ast.Expr) bool { return astx.IdentObj(info, ic.Resolve(e)) == wObj }
 			switch {
-			case se != nil && se.Sel.Name == "ExecuteTemplate":
+			case se != nil && se.Sel.Name == "ExecuteTemplate" && len(call.Args) == 3:
 				dst := "staging"
-				if astx.IdentObj(info, call.Args[0]) == wObj {
+				if isW(call.Args[0]) {
 					dst = "out"
 				}
 				k := "exec:" + dst
-				if c2, ok := call.Args[2].(*ast.CallExpr); ok {
+				if c2, ok := ic.Resolve(call.Args[2]).(*ast.CallExpr); ok {
 					if f2 := astx.Callee(info, c2); f2 != nil && f2.Name() == "paramExprs" {
 						k += ":paramExprs"
 					}
 				}
-				evs = append(evs, ev{k, call.Pos(), call})
-			case fullName(fn) == "io.WriteString" && astx.IdentObj(info, call.Args[0]) == wObj:
+				evs = append(evs, ev{k, token.Pos(len(evs)), call})
+			case fullName(fn) == "io.WriteString" && len(call.Args) == 2 && isW(call.Args[0]):
 				s, _ := constStr(fc, call.Args[1])
-				evs = append(evs, ev{"lit:" + s, call.Pos(), call})
-			case se != nil && se.Sel.Name == "Write" && astx.IdentObj(info, se.X) == wObj:
-				evs = append(evs, ev{"write:staged", call.Pos(), call})
+				evs = append(evs, ev{"lit:" + s, token.Pos(len(evs)), call})
+			case se != nil && se.Sel.Name == "Write" && isW(se.X):
+				evs = append(evs, ev{"write:staged", token.Pos(len(evs)), call})
 			}
-			return true
-		})
+		}
 		sort.Slice(evs, func(i, j int) bool { return evs[i].pos < evs[j].pos })
 		var seq []string
 		for _, e := range evs {
@@ -322,10 +322,19 @@ func (c *ctx) prologue() {
 		good = good && stage == 3 && post > 0
 		// all unconditional up to early error returns
 		for _, e := range evs {
-			for _, cd := range fc.par.Known(e.call, fd) {
-				if _, isNil := astx.EqNil(info, cd.E); !isNil || !cd.Pos {
-					if is, ok := cd.At.(*ast.IfStmt); !ok || !fc.par.Within(e.call, is.Init) && !fc.par.Within(e.call, is.Cond) {
-						good = false
+			ic := inl[e.call]
+			sites := append(append([]*ast.CallExpr(nil), ic.Chain...), e.call)
+			for _, site := range sites {
+				sfc := c.fileOf(site)
+				if sfc == nil {
+					good = false
+					continue
+				}
+				for _, cd := range sfc.par.Known(site, sfc.funcDecl(site)) {
+					if _, isNil := astx.EqNil(info, cd.E); !isNil || !cd.Pos {
+						if is, ok := cd.At.(*ast.IfStmt); !ok || !sfc.par.Within(site, is.Init) && !sfc.par.Within(site, is.Cond) {
+							good = false
+						}
 					}
 				}
 			}
